@@ -8,6 +8,7 @@ import (
 	"crypto/sha512"
 	"fmt"
 	"math/big"
+	"sort"
 
 	hpke "github.com/cisco/go-hpke"
 	"github.com/cloudflare/pat-go/tokens/type3"
@@ -320,6 +321,39 @@ func runC07(c *h.Ctx) {
 				}
 			}
 		}
+		// an envelope that is consistent in every respect EXCEPT the associated data it was sealed under: every part of
+		// the prescribed associated data (name key configuration, token type, request key, name key id) is bound — a
+		// request sealed under any reduced or reordered version of it does not open, whoever signed it
+		{
+			type aadFn func(cfg, typ, key, kid []byte) []byte
+			variants := map[string]aadFn{
+				"without-request-key":   func(cfg, typ, key, kid []byte) []byte { return cat(cfg, typ, kid) },
+				"without-name-key-id":   func(cfg, typ, key, kid []byte) []byte { return cat(cfg, typ, key) },
+				"without-token-type":    func(cfg, typ, key, kid []byte) []byte { return cat(cfg, key, kid) },
+				"without-configuration": func(cfg, typ, key, kid []byte) []byte { return cat(typ, key, kid) },
+				"empty":                 func(cfg, typ, key, kid []byte) []byte { return nil },
+				"request-key-only":      func(cfg, typ, key, kid []byte) []byte { return key },
+				"key-id-before-key":     func(cfg, typ, key, kid []byte) []byte { return cat(cfg, typ, kid, key) },
+				"another-request-key": func(cfg, typ, key, kid []byte) []byte {
+					return cat(cfg, typ, elliptic.MarshalCompressed(elliptic.P384(), otherKey.X, otherKey.Y), kid)
+				},
+				"request-key-x-only": func(cfg, typ, key, kid []byte) []byte { return cat(cfg, typ, key[1:], kid) },
+				"another-token-type": func(cfg, typ, key, kid []byte) []byte { return cat(cfg, []byte{0, 2}, key, kid) },
+			}
+			var vnames []string
+			for name := range variants {
+				vnames = append(vnames, name)
+			}
+			sort.Strings(vnames)
+			for _, name := range vnames {
+				f := variants[name]
+				if wire, err := craftType3AAD(c, is, good, func(key []byte) []byte { return f(is.cfg, []byte{0, 3}, key, is.keyID) }); err == nil {
+					if is.evalCase(c, "associated-data:"+name, wire) {
+						c.Violation("a request sealed under other associated data than configuration || type || request key || name key id is served", map[string]any{"associated_data": name})
+					}
+				}
+			}
+		}
 		if wire, err := craftType3(c, is, client, good); err == nil {
 			if !is.evalCase(c, "request-key:crafted-control", wire) {
 				c.Violation("the crafted control request (valid in every respect) is refused: harness bug or issuer defect", nil)
@@ -385,6 +419,26 @@ func craftType3Signed(c *h.Ctx, is *c07Issuer, _ type3.RateLimitedClient, plaint
 	ect := cat(enc, ct)
 	sm := signedMessage(keyEnc, is.keyID, ect)
 	d := sha512.Sum384(sm)
+	rr, ss, _ := stdecdsa.Sign(crand.Reader, key, d[:])
+	sig := make([]byte, 96)
+	rr.FillBytes(sig[:48])
+	ss.FillBytes(sig[48:])
+	return cat([]byte{0, 3}, keyEnc, is.keyID, u16pfx(ect), sig), nil
+}
+
+// craftType3AAD: as craftType3, sealed under the associated data aadOf(request key) instead of the prescribed one.
+func craftType3AAD(c *h.Ctx, is *c07Issuer, plaintext []byte, aadOf func(keyEnc []byte) []byte) ([]byte, error) {
+	key, _ := stdecdsa.GenerateKey(elliptic.P384(), crand.Reader)
+	keyEnc := elliptic.MarshalCompressed(elliptic.P384(), key.X, key.Y)
+	pkBytes := is.suite.KEM.SerializePublicKey(mustPub(is))
+	pk, _ := is.suite.KEM.DeserializePublicKey(pkBytes)
+	enc, ctx, err := hpke.SetupBaseS(is.suite, crand.Reader, pk, []byte("TokenRequest"))
+	if err != nil {
+		return nil, err
+	}
+	ct := ctx.Seal(aadOf(keyEnc), plaintext)
+	ect := cat(enc, ct)
+	d := sha512.Sum384(signedMessage(keyEnc, is.keyID, ect))
 	rr, ss, _ := stdecdsa.Sign(crand.Reader, key, d[:])
 	sig := make([]byte, 96)
 	rr.FillBytes(sig[:48])
